@@ -4,6 +4,7 @@ import (
 	"fmt"
 	"os"
 	"path/filepath"
+	"strings"
 
 	"golang.org/x/tools/go/ssa"
 
@@ -72,6 +73,7 @@ func checkC04(c *Ctx) {
 			MaxCoverReplays: -1,
 		})
 	}
+	jobs = append(jobs, c04PipelineJobs(c)...)
 	// supplementary pipeline cross-check (sampling on the grammar axis, no symbolic variable):
 	// gocc's exit status without -a against the conflict verdict of /verif's reference LR(1)
 	nRand := 6
@@ -102,8 +104,130 @@ func checkC04(c *Ctx) {
 	c.Extra["pipeline_crosscheck_sampled_grammars"] = sampled
 	c.Extra["pipeline_crosscheck_agreements"] = agree
 	c.BoundsText = append(c.BoundsText, fmt.Sprintf("supplementary, NOT solver-decided: %d random grammars (seed %d): gocc's exit status without -a agrees with the conflict verdict of /verif's reference LR(1) construction", len(sampled), c.Seed))
-	c.BoundsText = append(c.BoundsText, "kernel level only: (i) (*ItemSet).Action on every item set of up to K arbitrary items in every order (conflict reported iff two different actions compete; accept competing with a reduction is refused); (ii) main.handleConflicts exits non-zero iff conflicts were found and -a is off",
-		"outside the claim: that closure/goto produce exactly the states of the canonical LR(1) automaton (the grammar axis cannot be made symbolic: item sets are maps keyed by fmt-built strings); covered only indirectly on the corpus by C02/C05/C06")
-	c.Assumptions = append(c.Assumptions, "fmt.Sprintf is an opaque function: the conflict list is only observed through len(conflicts) > 0", "os.Exit ends the path; native replay of paths ending in os.Exit is not possible and is skipped")
+	c.BoundsText = append(c.BoundsText, "pipeline level (solver-decided over the configuration axis): the real main() executed symbolically on every corpus grammar with conflicts, on conflict-free corpus grammars, on the accept/reduce grammar S : S | \"a\" and on sampled variations of corpus grammars, all seven boolean flags symbolic: it returns normally iff /verif's reference canonical LR(1) construction finds no conflict or -a is set, otherwise os.Exit(non-zero); the accept conflict panics in both modes. FIRST sets, LR(1) item sets, action rows and conflict lists (plain and -zip) are the shipped code; templates and file output stubbed")
+	c.BoundsText = append(c.BoundsText, "kernel level: (i) (*ItemSet).Action on every item set of up to K arbitrary items in every order (conflict reported iff two different actions compete; accept competing with a reduction is refused); (ii) main.handleConflicts exits non-zero iff conflicts were found and -a is off",
+		"outside the claim: grammars other than the corpus and the sampled ones at pipeline level (the grammar axis cannot be made symbolic: item sets are maps keyed by fmt-built strings; for the listed grammars the table-simulation lemmas of C02/C05 show that the generated tables ARE the canonical automaton)")
+	c.Assumptions = append(c.Assumptions, "kernel jobs: fmt.Sprintf is an opaque function, the conflict list is only observed through len(conflicts) > 0; pipeline jobs: fmt text is computed concretely (ConcreteFmt model)", "pipeline jobs: config.New replaced by arbitrary booleans behind the config.Config interface (no_lexer with debug_lexer excluded, as the flag parser refuses it); text/template, go/format and file output stubbed", "os.Exit ends the path; native replay of paths ending in os.Exit is not possible and is skipped")
 	c.RunJobs(filterJobs(jobs), 4)
+}
+
+// c04PipelineJobs: the real main() executed symbolically (all boolean flags symbolic) on corpus
+// and sampled grammars; the expected verdict comes from /verif's reference LR(1) construction.
+func c04PipelineJobs(c *Ctx) []Job {
+	var gs []*SynGrammar
+	for _, g := range ConflictCorpus {
+		gs = append(gs, g)
+	}
+	for _, g := range SynCorpus {
+		if g.Name == "G01" || g.Name == "G02" || g.Name == "G04" || g.Name == "G07" || !c.Quick() {
+			gs = append(gs, g)
+		}
+	}
+	gs = append(gs, &SynGrammar{Name: "GACC", Why: "the start symbol derives itself: accept competes with a reduction", Lex: stdLex,
+		Prods: []Prod{{Head: "S", Body: []Sym{NT("S")}}, {Head: "S", Body: []Sym{Lit("a")}}}})
+	nRand := 2
+	if !c.Quick() {
+		nRand = 8
+	}
+	gs = append(gs, VariedGrammars(int64(c.Seed)+77, nRand, false)...)
+	gs = append(gs, VariedGrammars(int64(c.Seed)+78, nRand, true)...)
+	var b strings.Builder
+	b.WriteString("//go:build verif\n\npackage main\n\nvar verifC04Grammars = []verifC04Grammar{\n")
+	for _, g := range gs {
+		r := BuildRefLR(g)
+		acc := false
+		for _, row := range r.Actions {
+			for _, cands := range row {
+				if len(cands) > 1 {
+					for _, a := range cands {
+						if a == actAccept {
+							acc = true
+						}
+					}
+				}
+			}
+		}
+		fmt.Fprintf(&b, "\t{%q, %v, %v, %q},\n", g.Name, r.Conflict, acc, g.BNF(false))
+	}
+	b.WriteString("}\n")
+	dir, _ := os.MkdirTemp(c.Scratch, "c04data")
+	data := filepath.Join(dir, "c04data.go")
+	os.WriteFile(data, []byte(b.String()), 0o644)
+	tm := &Target{ModDir: "/repo", PkgDir: "/repo", PkgPath: RepoMod, PkgName: "main", Harness: []string{VerifRoot + "/harness/main/c04.go", VerifRoot + "/harness/main/c14.go", VerifRoot + "/harness/main/c04pipe.go", data}}
+	exit := func(e *engine.Engine, st *engine.St, args []engine.Value, call *ssa.CallCommon) (engine.Value, bool) {
+		conflict := e.ReadGlobal(st, RepoMod, "verifC04Conflict").(*engine.T)
+		auto := e.ReadGlobal(st, RepoMod, "verifC04Auto").(*engine.T)
+		code := args[0].(*engine.T)
+		e.AssertAt(st, e.S.Not(e.S.Eq(code, e.S.Const(0, code.W))), "an early exit has a non-zero status")
+		e.AssertAt(st, e.S.And(conflict, e.S.Not(auto)), "gocc exits early only if the grammar has LR(1) conflicts and -a is off")
+		e.CoverAt(st, "exit")
+		e.Kill(st)
+		return nil, true
+	}
+	zero := func(e *engine.Engine, st *engine.St, args []engine.Value, call *ssa.CallCommon) (engine.Value, bool) {
+		res := call.Signature().Results()
+		switch res.Len() {
+		case 0:
+			return nil, true
+		case 1:
+			return e.Zero(res.At(0).Type()), true
+		}
+		return e.Zero(res), true
+	}
+	pg := RepoMod + "/internal/parser/gen/golang."
+	intr := map[string]engine.Intrinsic{
+		"os.Exit":                                  exit,
+		RepoMod + "/internal/config.New":           redirectTo(RepoMod, "verifConfigNew"),
+		RepoMod + "/internal/lexer/gen/golang.Gen": zero,
+		RepoMod + "/internal/token/gen.Gen":        zero,
+		RepoMod + "/internal/util/gen.Gen":         zero,
+		RepoMod + "/internal/io.WriteFileString":   zero,
+		RepoMod + "/internal/io.WriteFile":         zero,
+		"flag.PrintDefaults":                       zero,
+		pg + "GenAction":                           zero,
+		pg + "GenContext":                          zero,
+		pg + "GenErrors":                           zero,
+		pg + "GenGotoTable":                        zero,
+		pg + "GenParser":                           zero,
+		pg + "GenProductionsTable":                 zero,
+		pg + "genEnc":                              zero,
+		// number of characters of an int (uses math.Log10): computed on the concrete argument
+		pg + "nbytes": func(e *engine.Engine, st *engine.St, args []engine.Value, call *ssa.CallCommon) (engine.Value, bool) {
+			x, ok := args[0].(*engine.T)
+			if !ok || !x.IsConst() {
+				return e.IntV(1, 64), true
+			}
+			return e.IntV(int64(len(fmt.Sprint(x.Int()))), 64), true
+		},
+		"text/template.New":                 zero,
+		"(*text/template.Template).Parse":   zero,
+		"(*text/template.Template).Execute": zero,
+	}
+	var jobs []Job
+	for i, g := range gs {
+		r := BuildRefLR(g)
+		req := []string{"generation completed"}
+		if r.Conflict {
+			req = append(req, "exit")
+		}
+		if g.Name == "GACC" {
+			req = []string{"rejected by panic @action.go:71"}
+		}
+		jobs = append(jobs, Job{
+			Name:   fmt.Sprintf("main pipeline %s", g.Name),
+			Target: tm,
+			Run: SymRun{Harness: "VerifC04Main", Params: map[string]int{"ONLY": i}, LoopBound: 20000, ConcreteFmt: true, ForkFuncs: []string{"VerifC04Main", "main", "handleConflicts", "Gen", "GenActionTable"}, Intrinsics: intr,
+				InitPkgs: func(p string) bool {
+					return p == "sort" || p == "unicode" || p == "unicode/utf8" || p == "strconv" || (strings.HasPrefix(p, RepoMod) && !strings.Contains(p, "/gen"))
+				}},
+			AllowPanic:          []string{"panic @", "panic: "},
+			PanicIsCover:        true,
+			TimeoutS:            900,
+			ConfirmOnlyFailures: true,
+			MaxCoverReplays:     -1,
+			Bounds:              fmt.Sprintf("the real main() on grammar %s (%s; reference LR(1): %d states, conflicts=%v) with all seven boolean flags symbolic (no_lexer together with debug_lexer excluded: refused by the flag parser): FIRST sets, LR(1) item sets, action rows with conflict lists (plain and -zip variant) and handleConflicts executed as shipped; template rendering and file output stubbed", g.Name, g.Why, len(r.States), r.Conflict),
+			RequiredCovers:      req,
+		})
+	}
+	return jobs
 }
